@@ -276,7 +276,12 @@ def check_catch_state(ctx, doc, kind, fields, k):
     ctx.nontrivial(case)
     ok = got[0] == exp[0] and (R.matches(exp[1], got[1]) if got[0] == "SUCCEEDED" else got[1] == exp[1])
     if not ok:
-        ctx.violation("state-level-path-law", dict(case, expected=exp, engine=got), "inband-error-member" if (o.facts.get("error_member_values") and got[0] == "FAILED") else None)
+        mech = None
+        if o.facts.get("null_docs"):
+            mech = "null-document-as-empty-object"
+        elif o.facts.get("error_member_values") and got[0] == "FAILED":
+            mech = "inband-error-member"
+        ctx.violation("state-level-path-law", dict(case, expected=exp, engine=got), mech)
 
 
 def run(ctx):
